@@ -496,8 +496,12 @@ class BranchFacts(object):
             if cls == "SwitchStmt":
                 cases = t.get("cases", [])
                 if si < len(cases) and isinstance(cases[si], dict) and "v" in cases[si]:
-                    return st | frozenset([("(%s == %s)" % tuple(sorted([canon(c), str(cases[si]["v"])])), True),
-                                           ("switch:%s=%s" % (canon(c), cases[si].get("cn", cases[si]["v"])), True)])
+                    add_ = [("(%s == %s)" % tuple(sorted([canon(c), str(cases[si]["v"])])), True),
+                            ("switch:%s=%s" % (canon(c), cases[si].get("cn", cases[si]["v"])), True)]
+                    if cases[si].get("cn"):
+                        # the same fact an `if (x == Enumerator)` would give
+                        add_.append(("(%s == %s)" % tuple(sorted([canon(c), str(cases[si]["cn"]).split("::")[-1]])), True))
+                    return st | frozenset(add_)
                 return st
             return st
 
